@@ -60,6 +60,22 @@ const BIG: [u32; 40] = [
     1518500250, // ceil(2^31 / sqrt 2): M^2 passes 2^61
     2147483643, // 2^31 - 5 (= 3 * 715827881, odd composite next to the limit)
 ];
+/// wave 5: moduli with special number-theoretic structure (a "prime modulus" fast path chosen by a compile-time
+/// primality / pseudoprimality test is wrong exactly here): Carmichael numbers, Fermat / strong pseudoprimes to the
+/// bases {2}, {2,3}, {2,3,5} (no composite below 2^31 passes {2,3,5,7}), prime squares and cubes (Wieferich squares included)
+const SPECIAL: [u32; 24] = [
+    561, 1105, 1729, 2465, 294409, // Carmichael
+    56052361,   // Carmichael 211*421*631
+    1299963601, // Carmichael 601*1201*1801
+    341,        // Fermat pseudoprime to base 2 (not strong)
+    2047, 3277, 4033, // strong pseudoprimes to base 2
+    1373653, 1530787, // strong pseudoprimes to bases 2, 3
+    25326001, 161304001, 960946321, 1157839381, // ALL strong pseudoprimes to bases 2, 3, 5 below 2^31
+    841, 2197, 2209, // 29^2, 13^3, 47^2
+    2147117569, // 46337^2: the largest prime square below 2^31
+    2141700569, // 1289^3: the largest prime cube below 2^31
+    1194649, 12327121, // 1093^2, 3511^2: Wieferich squares, strong pseudoprimes to base 2
+];
 /// moduli outside the domain (`S any`): the model mirrors the wrapping casts / overflow panics
 const OOD: [u32; 4] = [1, 2147483648, 2147483649, 4294967295];
 
@@ -80,6 +96,7 @@ fn dispatch_modulus(m: u32, op: &str, args: &[&str]) -> Option<String> {
         1073741824 46341 46340 46337 65537 65535 65538 1073741825 1073741823 257
         255 256 32767 32768 32769 16777216 16777217 94906266 94906267 94906268 536870912 715827883
         1431655765 1836311903 1518500250 2147483643 181 182 183 4096 4097 4098
+        561 1105 1729 2465 294409 56052361 1299963601 341 2047 3277 4033 1373653 1530787 25326001 161304001 960946321 1157839381 841 2197 2209 2147117569 2141700569 1194649 12327121
         1 2147483648 2147483649 4294967295)
 }
 
@@ -449,7 +466,8 @@ fn dispatch_chain_modulus(m: u32, v0: i64, ops: &[&str]) -> Option<String> {
         998244353 1000000007 2147483647 2147483629 2147483646 2147483645 65536 15015
         1073741824 46341 46340 46337 65537 65535 65538 1073741825 1073741823 257
         255 256 32767 32768 32769 16777216 16777217 94906266 94906267 94906268 536870912 715827883
-        1431655765 1836311903 1518500250 2147483643 181 182 183 4096 4097 4098)
+        1431655765 1836311903 1518500250 2147483643 181 182 183 4096 4097 4098
+        561 1105 1729 2465 294409 56052361 1299963601 341 2047 3277 4033 1373653 1530787 25326001 161304001 960946321 1157839381 841 2197 2209 2147117569 2141700569 1194649 12327121)
 }
 
 fn run_case(line: &str) -> String {
@@ -613,9 +631,65 @@ fn class_of(m: u32) -> &'static str {
         "ood"
     } else if m <= 64 {
         "small"
+    } else if SPECIAL.contains(&m) {
+        "special"
     } else {
         "big"
     }
+}
+
+/// (prime factors, Euler phi, Carmichael lambda) of m, by trial division
+fn factor_phi_lambda(m: u32) -> (Vec<u64>, u64, u64) {
+    let (mut n, mut d) = (m as u64, 2u64);
+    let (mut ps, mut phi, mut lam) = (Vec::new(), 1u64, 1u64);
+    let mut put = |p: u64, e: u32, ps: &mut Vec<u64>| {
+        ps.push(p);
+        let f = p.pow(e - 1) * (p - 1);
+        phi *= f;
+        let l = if p == 2 && e >= 3 { f / 2 } else { f };
+        lam = lam / gcd_u128(lam as u128, l as u128) as u64 * l;
+    };
+    while d * d <= n {
+        let mut e = 0;
+        while n % d == 0 {
+            n /= d;
+            e += 1;
+        }
+        if e > 0 {
+            put(d, e, &mut ps);
+        }
+        d += 1;
+    }
+    if n > 1 {
+        put(n, 1, &mut ps);
+    }
+    (ps, phi, lam)
+}
+
+/// exponents tied to the multiplicative structure of Z/M: around M-1, phi(M), lambda(M), their multiples (also far beyond
+/// 2^32), the odd part of M-1 and its doublings (the exponents a Miller-Rabin test looks at)
+fn structure_exponents(rng: &mut SplitMix64, m: u32) -> Vec<u64> {
+    let (_, phi, lam) = factor_phi_lambda(m);
+    let n = m as u64 - 1;
+    let mut v = vec![
+        0, 1, 2, n - 1, n, n + 1, n + 2, 2 * n, 2 * n + 1, 2 * n + 2, 3 * n, n / 2, n / 2 + 1, n * n, n * (n + 1), n * n + 1,
+        phi - 1, phi, phi + 1, 2 * phi, phi + n, lam - 1, lam, lam + 1, 2 * lam, lam / 2, lam + n, phi * lam,
+        u64::MAX, u64::MAX / n * n, u64::MAX / n * n + 1, u64::MAX / phi * phi, u64::MAX / lam * lam + 1, 1 << 32, 1 << 63,
+    ];
+    let mut d = n;
+    while d % 2 == 0 {
+        d /= 2;
+        v.push(d);
+    }
+    for _ in 0..4 {
+        let k = 1 + (rng.next_u64() >> rng.below(64)) % (u64::MAX / n - 1);
+        v.push(k * n);
+        v.push(k * n + rng.below(n));
+        v.push(k * lam + rng.below(3));
+    }
+    v.sort();
+    v.dedup();
+    v
 }
 
 fn gcd_i(a: i64, b: i64) -> i64 {
@@ -967,6 +1041,55 @@ fn gen(args: &Args, emit: &mut dyn FnMut(String), st: &mut Stats) {
                 let (a, b) = (rand_i64(&mut rng, m), rand_i64(&mut rng, m));
                 g.pair(m, a, b, "random");
             }
+        }
+    }
+
+    // (2a) wave 5: moduli with special number-theoretic structure.  pow for bases {2,3,5,7,11,13,17,19, M-1, M-2, (M+1)/2, the prime
+    //      factors p of M, p+1, M/p, p*(random), random residues, two non-canonical arguments} x the structure exponents; inv of every
+    //      base; all quotients of the first bases; constants, constructor arguments, a few histories whose pow steps use these exponents
+    for &m in SPECIAL.iter() {
+        let mi = m as i64;
+        let (ps, _, _) = factor_phi_lambda(m);
+        let exps = structure_exponents(&mut rng, m);
+        let mut bases: Vec<i64> = vec![2, 3, 5, 7, 11, 13, 17, 19, mi - 1, mi - 2, (mi + 1) / 2, 0, 1];
+        for &p in &ps {
+            let p = p as i64;
+            bases.extend([p, p + 1, mi / p, (p * rng.range_i64(1, mi / p - 1)) % mi]);
+        }
+        for _ in 0..3 {
+            bases.push(rng.range_i64(2, mi - 2));
+        }
+        bases.sort();
+        bases.dedup();
+        bases.push(7 + mi * rng.range_i64(1, 1 << 30));
+        bases.push(-11);
+        let rot = (m % 3) as usize;
+        for (i, &a) in bases.iter().enumerate() {
+            let prime_base = (2..=19).contains(&a);
+            for (j, &d) in exps.iter().enumerate() {
+                // every exponent for the small prime bases; a rotating third (debug profile: of everything) otherwise
+                let keep = if lite { (i + j + rot) % 3 == 0 } else { prime_base || (i + j + rot) % 3 == 0 };
+                if thorough || keep {
+                    g.pow(m, a, d, "structure");
+                    g.st.bump("pow_special_modulus_structure_exponent");
+                    if d >= m as u64 - 1 && gcd_i(a.rem_euclid(mi), mi) == 1 {
+                        g.st.bump("pow_special_modulus_unit_base_exponent_ge_M-1");
+                    }
+                }
+            }
+            g.un(m, a, "structure");
+            for &b in bases.iter().take(if lite { 2 } else { 5 }) {
+                g.pair(m, a, b, "structure");
+            }
+        }
+        g.cst(m);
+        for v in ctor_args(m) {
+            g.new(m, v, "boundary");
+        }
+        let bnd = boundary_residues(m);
+        for _ in 0..(if thorough { 40 } else if lite { 2 } else { 6 }) {
+            let len = 6 + rng.below(8) as usize;
+            g.chain(&mut rng, m, len, &bnd, &exps, "structure");
         }
     }
 
